@@ -301,6 +301,16 @@ func c26overlapRun(t *testing.T, r *rt.Run, c *rt.Case, k c26overlapCase) {
 			subscribedAtBroker = false // unsubscribed, the new subscription refused
 		}
 	}
+	if k.kind != "sub-sub" && okc(0, k.rc1) && okc(1, k.rc2) {
+		// the Unsubscribe was called after Subscribe(old) had returned and it succeeded: whatever becomes of the
+		// other call, the callback it revoked is not invoked any more (C27: 'once Unsubscribe succeeds that
+		// filter's callback is no longer invoked')
+		for _, f := range ran {
+			if f == "old" {
+				c.Violation(fmt.Sprintf("overlap|unsubscribed-callback-ran|%s|rc=%d,%d|swapped=%v", k.kind, k.rc1, k.rc2, k.swap), fmt.Sprintf("%s: Unsubscribe returned nil, yet the callback of the subscription it ended ran for a later message", k), witness)
+			}
+		}
+	}
 	if subscribedAtBroker {
 		if len(ran) == 0 {
 			c.Violation(fmt.Sprintf("overlap|message-not-delivered|%s|rc=%d,%d|swapped=%v", k.kind, k.rc1, k.rc2, k.swap), fmt.Sprintf("%s: the subscription exists (a Subscribe call returned nil) but no callback ran for the message", k), witness)
